@@ -304,6 +304,19 @@ def compare(a, b, facts):
     return None
 
 
+def _inclusive_upper(c2):
+    """the node of the inclusive upper bound of a loop condition `v <= B` (B) or `v < B + 1` (B); None for other shapes"""
+    if c2.k != "BinaryOperator":
+        return None
+    if c2.op == "<=":
+        return c2.c[1]
+    if c2.op == "<":
+        o = c2.c[1].strip()
+        if o.k == "BinaryOperator" and o.op == "+" and key(o.c[1].strip()) == "1":
+            return o.c[0]
+    return None
+
+
 def decide(c, facts, defs):
     c = c.strip()
     if c.k == "BinaryOperator" and c.op in ("<", ">", "<=", ">=", "=="):
@@ -500,12 +513,12 @@ def rule_g_producer_covers_consumer(ctx, fns):
                 if d is None:
                     # loop variable declared outside: for (ax = a; ax <= b; ax++)
                     init, c2 = lp.c[0].strip(), lp.c[1].strip()
-                    if init.k == "BinaryOperator" and init.op == "=" and c2.k == "BinaryOperator" and c2.op == "<=" and key(init.c[0].strip()) == key(c2.c[0].strip()):
-                        d = {"var": key(init.c[0].strip()), "init": key(init.c[1].strip()), "upper_node": c2.c[1], "init_node": init.c[1]}
+                    if init.k == "BinaryOperator" and init.op == "=" and c2.k == "BinaryOperator" and c2.op in ("<=", "<") and key(init.c[0].strip()) == key(c2.c[0].strip()):
+                        d = {"var": key(init.c[0].strip()), "init": key(init.c[1].strip()), "upper_node": _inclusive_upper(c2), "init_node": init.c[1]}
                 else:
                     vd = [m for m in lp.c[0].walk() if m.k == "VarDecl" and m.c][0]
                     c2 = lp.c[1].strip()
-                    d = {"var": d["var"], "init_node": vd.c[0], "upper_node": c2.c[1] if c2.k == "BinaryOperator" and c2.op == "<=" else None}
+                    d = {"var": d["var"], "init_node": vd.c[0], "upper_node": _inclusive_upper(c2)}
                 if d is None or d.get("upper_node") is None:
                     continue
                 reads = []
